@@ -513,7 +513,11 @@ def summarize(ctx, events, crashes, sigs, spec, extra_cov=None, extra_violations
             err = "only %d of %d shards completed" % (len(dones), ctx.get("expected_dones", 1))
     if not cov["samples"]:
         cov["samples"] = [{"note": "no sample recorded"}]
-    verr = write_evidence(prop, ev)
+    verr = None
+    if ctx.get("only") is None:
+        verr = write_evidence(prop, ev)
+    else:
+        out_lines.append("REPLAY %s case %s: %s" % (prop, ctx.get("only"), "VIOLATED again" if violations else ("attributed to a known finding" if kf_seen else "held (no violation on the current tree)")))
     for l in out_lines:
         log(l)
     if violations:
